@@ -50,13 +50,12 @@ theorem groupStep_ts_fails (P : Params) (gr : Grp) (n t : Str) (s : OSample) (g 
 /-- a successful sample step goes through `groupStep` (plain samples) -/
 theorem sampleChecks_ok (P : Params) (h : Hdr) (gr gr' : Grp) (s : OSample) (n : Str) (hn : h.name = some n)
     (hs : sampleChecks P h gr s false = .ok gr') : groupStep P gr n (h.typ.getD []) s = .ok gr' := by
-  unfold sampleChecks at hs
-  rw [hn] at hs; dsimp only at hs
+  rw [sampleChecks_false, hn] at hs
+  dsimp only at hs
   cases h1 : preChecks P n h.typ s with
   | error e => rw [h1] at hs; dsimp only at hs; cases hs
   | ok u =>
     rw [h1] at hs; dsimp only at hs
-    simp only [Bool.not_false, if_true] at hs
     cases h2 : groupStep P gr n (h.typ.getD []) s with
     | error e => rw [h2] at hs; dsimp only at hs; cases hs
     | ok g2 =>
@@ -67,13 +66,12 @@ theorem sampleChecks_ok (P : Params) (h : Hdr) (gr gr' : Grp) (s : OSample) (n :
 
 theorem sampleChecks_group_fails (P : Params) (h : Hdr) (gr : Grp) (s : OSample) (n : Str) (hn : h.name = some n)
     (he : isError (groupStep P gr n (h.typ.getD []) s) = true) : isError (sampleChecks P h gr s false) = true := by
-  unfold sampleChecks
-  rw [hn]; dsimp only
+  rw [sampleChecks_false, hn]
+  dsimp only
   cases preChecks P n h.typ s with
   | error e => rfl
   | ok u =>
     dsimp only
-    simp only [Bool.not_false, if_true]
     cases h2 : groupStep P gr n (h.typ.getD []) s with
     | error e => rfl
     | ok g2 => rw [h2] at he; cases he
@@ -184,36 +182,33 @@ theorem groupStep_samples (P : Params) (gr gr' : Grp) (n t : Str) (s : OSample) 
 theorem sampleChecks_samples (P : Params) (h : Hdr) (gr gr' : Grp) (s : OSample) (isNh : Bool) (hk : KeptInv gr)
     (hs : sampleChecks P h gr s isNh = .ok gr') : gr'.samples ≠ [] ∧ KeptInv gr' := by
   have key : gr'.samples ≠ [] := by
-    unfold sampleChecks at hs
-    cases hn : h.name with
-    | none => rw [hn] at hs; cases hs
-    | some n =>
-      rw [hn] at hs; dsimp only at hs
-      cases h1 : preChecks P n h.typ s with
-      | error e => rw [h1] at hs; dsimp only at hs; cases hs
-      | ok u =>
-        rw [h1] at hs; dsimp only at hs
-        cases isNh with
-        | false =>
-          simp only [Bool.not_false, if_true] at hs
-          cases h2 : groupStep P gr n (h.typ.getD []) s with
-          | error e => rw [h2] at hs; dsimp only at hs; cases hs
-          | ok g2 =>
-            rw [h2] at hs; dsimp only at hs
+    cases isNh with
+    | false =>
+      cases hn : h.name with
+      | none => rw [sampleChecks_false, hn] at hs; cases hs
+      | some n => exact groupStep_samples P gr gr' n _ s hk (sampleChecks_ok P h gr gr' s n hn hs)
+    | true =>
+      unfold sampleChecks at hs
+      by_cases c : (true && nhSkipsChecks) = true
+      · rw [if_pos c] at hs
+        obtain rfl := Except.ok.inj hs
+        simp
+      · rw [if_neg c] at hs
+        cases hn : h.name with
+        | none => rw [hn] at hs; cases hs
+        | some n =>
+          rw [hn] at hs; dsimp only at hs
+          cases h1 : preChecks P n h.typ s with
+          | error e => rw [h1] at hs; dsimp only at hs; cases hs
+          | ok u =>
+            rw [h1] at hs; dsimp only at hs
+            simp only [Bool.not_true, Bool.false_eq_true, if_false] at hs
             cases h3 : postChecks P n h.typ s with
             | error e => rw [h3] at hs; dsimp only at hs; cases hs
             | ok u3 =>
               rw [h3] at hs; dsimp only at hs
               obtain rfl := Except.ok.inj hs
-              exact groupStep_samples P gr g2 n _ s hk h2
-        | true =>
-          simp only [Bool.not_true, Bool.false_eq_true, if_false] at hs
-          cases h3 : postChecks P n h.typ s with
-          | error e => rw [h3] at hs; dsimp only at hs; cases hs
-          | ok u3 =>
-            rw [h3] at hs; dsimp only at hs
-            obtain rfl := Except.ok.inj hs
-            simp
+              simp
   exact ⟨key, fun _ => key⟩
 
 /-- every line keeps `KeptInv` -/
